@@ -460,6 +460,15 @@ def confirm_history(ctx, what='history independence'):
     L = bits(0.9)
     seqs = [['wilson 400 120 0 ' + L, 'wilson 400 120 1 ' + L, 'wilson 400 120 2 ' + L], ['z_normal 400 120 0 ' + L, 'z_normal 400 120 2 ' + L],
             ['qindices 100 %s 0 %s' % (bits(0.5), L), 'qindices 100 %s 1 %s' % (bits(0.5), L)], ['wilson 400 120 1 ' + L, 'wilson 400 120 0 ' + L]]
+    # t-based intervals: same data, same level, the three kinds in both orders; then another level and another sample size
+    d10 = ' '.join(bits(float(x)) for x in (3, 1, 4, 1, 5, 9, 2, 6, 5, 3))
+    d6 = ' '.join(bits(float(x)) for x in (2, 7, 1, 8, 2, 8))
+    L2 = bits(0.95)
+    seqs += [['arith_ci f64 0 %s %s' % (L, d10), 'arith_ci f64 1 %s %s' % (L, d10), 'arith_ci f64 2 %s %s' % (L, d10), 'arith_ci f64 0 %s %s' % (L, d10)],
+             ['arith_ci f64 1 %s %s' % (L, d10), 'arith_ci f64 0 %s %s' % (L, d10)],
+             ['arith_ci f64 0 %s %s' % (L, d10), 'arith_ci f64 0 %s %s' % (L2, d10), 'arith_ci f64 0 %s %s' % (L2, d6), 'arith_ci f64 2 %s %s' % (L2, d6)],
+             ['paired_ci f64 0 %s %s' % (L, d10), 'paired_ci f64 1 %s %s' % (L, d10), 'geometric_ci f64 2 %s %s' % (L, d10), 'harmonic_ci f64 0 %s %s' % (L, d10)],
+             ['unpaired_ci f64 0 %s 5 %s' % (L, d10), 'unpaired_ci f64 1 %s 5 %s' % (L, d10), 'unpaired_ci f64 0 %s 5 %s' % (L, d10)]]
     for seq in seqs:
         together = drv.run(seq)
         alone = [drv.run([c])[0] for c in seq]
@@ -552,3 +561,27 @@ def replay_unpaired_mirror(ctx, model, what):
                 path = save(ctx, what, {'property': ctx.pid, 'what': what, 'commands': [c1, c2], 'native': [r1, r2], 'deviation': 'negating both samples does not mirror the outcome'})
                 return True, path, '%s vs negated %s' % (r1, r2)
     return False, None, 'negation mirrors the outcome on the battery'
+
+
+def replay_quantile_data(ctx, what):
+    """C03 at the data level, natively, for sample sizes the solver-side harnesses do not reach: data[i] = (i*a + 1) mod n is a
+    permutation of 0..n-1, so every value equals its own rank and the reported bounds must be exactly the ranks ci_indices returns
+    (same kind); also the entry points must agree with ci_sorted_unchecked on the sorted sample."""
+    from math import gcd
+    drv = Driver.get(ctx)
+    for n in (17, 25, 64, 100, 1000, 1025, 2000, 4099, 8000):
+        for a in (7, 7919, 104729):
+            if gcd(a, n) != 1:
+                continue
+            for q in (0.1, 0.5, 0.9):
+                for kind, L in ((0, 0.95), (1, 0.9), (2, 0.9), (0, 0.6)):
+                    ref = parse_result(drv.run(['qindices %d %s %d %s' % (n, bits(q), kind, bits(L))])[0])
+                    for fn in ('ci', 'ci_max', 'ci_sorted'):
+                        cmd = 'qdata %s %d %d %s %d %s' % (fn, n, a, bits(q), kind, bits(L))
+                        got = parse_result(drv.run([cmd])[0])
+                        same = got[0] == ref[0] and (got[0] != 'ok' or (got[1] == ref[1] and [float(x) for x in ref[2]] == list(got[2]))) and (got[0] != 'err' or got[1] == ref[1])
+                        if not same:
+                            path = save(ctx, what, {'property': ctx.pid, 'what': what, 'command': cmd, 'native': got, 'reference_ranks': ref,
+                                                    'deviation': 'the sample is a permutation of 0..n-1 (value == rank): the bounds must be the ranks of ci_indices'})
+                            return True, path, '%s -> %s, ranks %s' % (cmd, got, ref)
+    return False, None, 'entry points return the order statistics at the ci_indices ranks on the permutation battery (n up to 8000)'
